@@ -23,8 +23,8 @@ PROFILE = {
     # property: (families quick, families thorough, faults in MC, replay with faults, random vectors quick/thorough)
     "C01": dict(quick=[1, 2, 3, 4, 5, 6, 7], thorough=[1, 2, 3, 4, 5, 6, 7, 8, 9, 10], mc_faults=0, faults=False, rand=(400, 16000), rand_kind="scalar"),
     "C02": dict(quick=[11, 12, 14, 18, 20], thorough=[11, 12, 13, 14, 18, 20], mc_faults=0, faults=False, rand=(300, 24000), rand_kind="path"),
-    "C03": dict(quick=[15, 17, 19], thorough=[15, 16, 17, 19], mc_faults=0, faults=False, rand=(300, 16000), rand_kind="ops"),
-    "C05": dict(quick=[4, 11, 14], thorough=[4, 6, 11, 12, 13, 14], mc_faults=4, faults=True, rand=(200, 8000), rand_kind="path"),
+    "C03": dict(quick=[15, 17, 19, 21], thorough=[15, 16, 17, 19, 21], mc_faults=0, faults=False, rand=(300, 16000), rand_kind="ops"),
+    "C05": dict(quick=[4, 6, 11, 14], thorough=[4, 6, 11, 12, 13, 14], mc_faults=4, faults=True, rand=(200, 8000), rand_kind="path"),
 }
 
 
@@ -195,7 +195,7 @@ def run(ctx):
         "C01": {"result:bool", "result:string", "result:number", "error", "panic", "compile", "hang"},
         "C02": {"calls", "prog", "compile", "panic", "history", "hang", "result:bool", "result:string", "result:number", "error"},
         "C03": {"variant-compile", "variant-prog", "variant-result", "prog", "compile", "hang"},
-        "C05": {"fault-error", "fault-panic", "fault-accessor", "panic", "hang"},
+        "C05": {"fault-error", "fault-panic", "fault-accessor", "fault-neither", "panic", "hang"},
     }[prop]
     for o in outcomes:
         for m in o["mism"]:
